@@ -498,6 +498,9 @@ ADVERSARIAL_MESSAGES = [
     b'A' * 1000 + b': x\r\n\r\n', b'X: ' + b'y' * 5000 + b'\r\n\r\n', b'a:b\rc:d\r\re', b'a:b\nc:d\n\ne',
     b'Subject: x\r\n\r\n' + b'line\r\n' * 200, b'Subject: x\r\n\r\n\x00\x01\x02', b'\x00',
     b'From: a@b\r\nTo:\r\nCc: ;\r\nBcc: ,\r\n\r\n',
+    b'Content-Type : multipart/mixed; boundary=b\r\n\r\n--b\r\nx\r\n--b--\r\n', b'Content-Type\t: text/plain\r\n\r\nx',
+    b'Date : x\r\nFrom \x0b: <\r\nSubject\x0c: y\r\n\r\n', b'From: =?utf-8?q?=ff?= <\xe9@\xe9>, \xff\r\nTo: \x80\r\n\r\n',
+    b'Content-Type: message/rfc822\r\n\r\nDate: nope\r\nFrom: <\r\nSender: a@b, c@d\r\n\r\nx',
 ]
 
 SIEVE_LINES = [
